@@ -30,11 +30,13 @@ import (
 	"github.com/rs/zerolog"
 	"github.com/sassoftware/relic/v8/cmdline/shared"
 	"github.com/sassoftware/relic/v8/config"
+	"github.com/sassoftware/relic/v8/lib/audit"
 	"github.com/sassoftware/relic/v8/lib/verifhook"
 	"github.com/sassoftware/relic/v8/lib/x509tools"
 	"github.com/sassoftware/relic/v8/server"
 	"github.com/sassoftware/relic/v8/server/daemon"
 	"github.com/sassoftware/relic/v8/signers"
+	"github.com/sassoftware/relic/v8/verifapi"
 	_ "github.com/sassoftware/relic/v8/signers/jar"
 	_ "github.com/sassoftware/relic/v8/signers/pecoff"
 	_ "github.com/sassoftware/relic/v8/signers/pgp"
@@ -380,7 +382,7 @@ func auditRecords(path string) (recs []event, bad []string) {
 		}
 		recs = append(recs, event{"ev": "Record", "sink": "file", "rid": shortRid(fmt.Sprint(m["client.filename"])), "key": m["sig.keyname"],
 			"sigtype": m["sig.type"], "digest": strings.ToLower(strings.ReplaceAll(fmt.Sprint(m["sig.hash"]), "-", "")),
-			"client": m["client.name"], "ip": m["client.ip"], "x509": m["sig.x509.fingerprint"]})
+			"client": m["client.name"], "ip": m["client.ip"], "x509": m["sig.x509.fingerprint"], "pgp": m["sig.pgp.fingerprint"]})
 	}
 	return recs, bad
 }
@@ -567,6 +569,20 @@ func Main(args []string) {
 			// (across a shutdown a signature may be audited and then not delivered: more records than responses is allowed)
 			r.Fail(map[string]string{"engine": "signsrv", "kind": "audit-count"}, nil, "%d audit lines for %d successful responses", len(recs), okCount)
 		}
+		// the record names the certificate the signature was made under: the PGP certificate for PGP signatures, the
+		// X.509 leaf otherwise (keys k1/alias1 carry both)
+		wantPgp := ""
+		if el, err := readPgp("/repo/functest/testkeys/rsa2048.pgp"); err == nil && len(el) > 0 {
+			wantPgp = fmt.Sprintf("%x", el[0].PrimaryKey.Fingerprint[:])
+		}
+		for _, rc := range recs {
+			switch {
+			case rc["sigtype"] == "pgp" && (wantPgp == "" || fmt.Sprint(rc["pgp"]) != wantPgp):
+				r.Fail(map[string]string{"engine": "signsrv", "kind": "audit-certificate"}, rc, "audit record of a PGP signature (key %v) names PGP fingerprint %v, the key's certificate is %s", rc["key"], rc["pgp"], wantPgp)
+			case rc["sigtype"] != "pgp" && (rc["x509"] == nil || len(fmt.Sprint(rc["x509"])) != 40):
+				r.Fail(map[string]string{"engine": "signsrv", "kind": "audit-certificate"}, rc, "audit record of a %v signature (key %v) names no X.509 certificate fingerprint (%v)", rc["sigtype"], rc["key"], rc["x509"])
+			}
+		}
 		for _, rc := range recs {
 			if rc["client"] != "verifclient" || rc["ip"] != "198.51.100.7" {
 				r.Fail(map[string]string{"engine": "signsrv", "kind": "audit-client"}, rc, "audit record names client %v ip %v, expected verifclient / 198.51.100.7", rc["client"], rc["ip"])
@@ -707,4 +723,77 @@ func (w *world) otherRequest(r *res.Result, base string, hc *http.Client, lr *ra
 		}
 	}
 	_ = crypto.SHA256
+}
+
+// AuditStress: vh audit-stress <goroutines> <records each>
+// The real publisher (signinit.PublishAudit -> audit.Info.Marshal/AppendTo) called concurrently, as concurrent
+// requests do: every record must arrive in the file exactly once, as one intact JSON line with its own attributes.
+func AuditStress(args []string) {
+	r := res.New()
+	g, n := 32, 150
+	if len(args) > 0 {
+		fmt.Sscan(args[0], &g)
+	}
+	if len(args) > 1 {
+		fmt.Sscan(args[1], &n)
+	}
+	dir, err := os.MkdirTemp(os.Getenv("VERIF_TMP"), "vh-audit-")
+	if err != nil {
+		panic(err)
+	}
+	defer os.RemoveAll(dir)
+	logPath := filepath.Join(dir, "audit.log")
+	cfgPath := filepath.Join(dir, "relic.yml")
+	os.WriteFile(cfgPath, []byte(fmt.Sprintf("tokens:\n  t1:\n    type: file\nkeys:\n  k1:\n    token: t1\n    keyfile: /repo/functest/testkeys/rsa2048.key\nauditfile: %s\n", logPath)), 0600)
+	cfg, err := config.ReadFile(cfgPath)
+	if err != nil {
+		panic(err)
+	}
+	shared.CurrentConfig = cfg
+	var wg sync.WaitGroup
+	for a := 0; a < g; a++ {
+		wg.Add(1)
+		go func(a int) {
+			defer wg.Done()
+			for i := 0; i < n; i++ {
+				info := audit.New(fmt.Sprintf("key%d", a), "jar", crypto.SHA256)
+				rid := fmt.Sprintf("r%d-%d", a, i)
+				info.Attributes["client.filename"] = rid
+				info.Attributes["client.name"] = strings.Repeat(string(rune('a'+a%26)), 20+(a*37+i*11)%900)
+				if err := verifapi.PublishAudit(info); err != nil {
+					r.Fail(map[string]string{"engine": "audit-stress", "kind": "publish-error"}, rid, "PublishAudit: %v", err)
+					return
+				}
+				r.Eval(true)
+			}
+		}(a)
+	}
+	wg.Wait()
+	data, _ := os.ReadFile(logPath)
+	seen := map[string]int{}
+	for i, line := range bytes.Split(bytes.TrimSuffix(data, []byte("\n")), []byte("\n")) {
+		var m map[string]any
+		if err := json.Unmarshal(line, &m); err != nil {
+			r.Fail(map[string]string{"engine": "audit-stress", "kind": "audit-format"}, nil, "line %d of the audit file is not one JSON object: %.100q", i+1, line)
+			continue
+		}
+		rid := fmt.Sprint(m["client.filename"])
+		seen[rid]++
+		var a, k int
+		fmt.Sscanf(rid, "r%d-%d", &a, &k)
+		want := strings.Repeat(string(rune('a'+a%26)), 20+(a*37+k*11)%900)
+		if m["sig.keyname"] != fmt.Sprintf("key%d", a) || m["client.name"] != want {
+			r.Fail(map[string]string{"engine": "audit-stress", "kind": "audit-mixed"}, rid, "record %s carries attributes of another request (key %v)", rid, m["sig.keyname"])
+		}
+	}
+	for a := 0; a < g; a++ {
+		for i := 0; i < n; i++ {
+			rid := fmt.Sprintf("r%d-%d", a, i)
+			if seen[rid] != 1 {
+				r.Fail(map[string]string{"engine": "audit-stress", "kind": "audit-count"}, rid, "record %s appears %d times in the audit file", rid, seen[rid])
+			}
+		}
+	}
+	r.Count("audit_records", g*n)
+	r.Emit()
 }
